@@ -172,6 +172,13 @@ class Ctx:
     def add_violation(self, clause, fail, case):
         sig = f'{clause}:{fail.sig or "oracle"}'
         self.violations.append({'clause': clause, 'sig': sig, 'msg': fail.msg[:4000], 'case': case})
+        if os.environ.get('VERIF_FAST_FAIL') and not known_finding(self.prop, sig):
+            # sensitivity tooling only (tools/all_seeded.sh, mutation campaign): the first violation
+            # settles "caught"; no search behind it, no minimisation, no evidence
+            print(f'--- {self.prop} clause {clause} sig={sig}', flush=True)
+            print(f'VIOLATION property={self.prop} replay=(fast-fail run, no replay written)', flush=True)
+            sys.stdout.flush()
+            os._exit(1)
 
     # ---- running one clause under Hypothesis
     def clause(self, name, strategy, check, n, nontrivial=lambda c: True, labels=lambda c: (),
@@ -313,6 +320,11 @@ def load_known_findings(prop):
                 if len(parts) >= 3 and parts[1] == f'property={prop}' and parts[2].startswith('sig='):
                     out[parts[2][4:]] = parts[3] if len(parts) > 3 else ''
     return out
+
+
+def known_finding(prop, sig):
+    known = load_known_findings(prop)
+    return sig in known or any(p.endswith('*') and sig.startswith(p[:-1]) for p in known)
 
 
 # --------------------------------------------------------------------------------------------
